@@ -81,7 +81,12 @@ is_5322_local (const char *start, const char *end)
             qpair = 0;
         else {
             switch (ch) {
-            case '"':   quote = 0; break;
+            case '"':
+                /* a quoted-string is a whole word: '.' or the end follows */
+                if ((cp + 1) < end && cp[1] != '.')
+                    return inverse(EEAV_LPART_MISPLACED_QUOTE);
+                quote = 0;
+                break;
             case '\\':  qpair = 1; break;
             /* the next chars are not allowed in qtext: */
             /* 1) they must be in quoted-pair(s). */
